@@ -91,7 +91,7 @@ class _SizerLoop(heap.MapLoopSpec):
         if self.kclause is None:
             return self.pd(L, env, k)
         items = self.kclause(self._q(env, k), SymKey(k), env)
-        return [(n, f.t if isinstance(f, SymBool) else f) for n, f in items] + \
+        return [(it[0], it[1].t if isinstance(it[1], SymBool) else it[1]) + tuple(it[2:]) for it in items] + \
                [('price-was-available', z3.Not(PNANF(lift(self.dt), k)))]
 
 
@@ -394,14 +394,29 @@ def ls_call(c):
         A = alloc(k)
         reveal = EQ(A, alloc_def(k))
         wk = VAL(wts, k)
-        pre, after, price, qty = (env['pre_cost_dollar_weight'], env['after_cost_dollar_weight'], env['asset_price'], env['asset_quantity'])
+        names = ('pre_cost_dollar_weight', 'after_cost_dollar_weight', 'asset_price', 'asset_quantity')
+        if any(_isunbound(env.get(n)) or not isinstance(env.get(n), (SymNum, int, float)) for n in names):
+            # the loop body was refactored: no staging, the functional equality is asked for directly
+            return [('quantity-is-the-documented-function-of-allocation-fee-and-price', z3.Implies(reveal, EQ(q, specq(k))))]
+        pre, after, price, qty = (env[n] for n in names)
         e1, e2, e3 = EQ(pre, A), EQ(after, A - r * ABS(A)), EQ(price, price_of(c, dt, k))
-        e4 = EQ(qty, TRUNC(TRUNC(after) / price))
+        tr = env.get('truncated_after_cost_dollar_weight')
+        staged = []
+        if isinstance(tr, SymNum):
+            e4a = EQ(tr, TRUNC(after))
+            e4 = z3.And(e4a, EQ(qty, TRUNC(tr / price)))
+            # generalised over the amount: the code's truncation equals trunc0 for EVERY real x (no hypothesis needed)
+            from pyvc.core import generalise
+            e4a_g, hyps = generalise(c, lift(after), e4a, 'amount_generalised')
+            staged = [('code/amount-truncated-toward-zero-to-a-whole-currency-unit', e4a_g, {'nopc': True, 'hyps': hyps}),
+                      ('code/quantity-is-trunc-of-truncated-amount-over-price', EQ(qty, TRUNC(tr / price)))]
+        else:
+            e4 = EQ(qty, TRUNC(TRUNC(after) / price))
+            staged = [('code/quantity-is-trunc-of-truncated-amount-over-price', e4)]
         return [('code/pre-cost-amount-is-E*L*w-over-gross', z3.Implies(reveal, e1)),
                 ('allocation-has-the-sign-of-the-weight', z3.Implies(reveal, z3.And((lift(wk) > 0) == (lift(A) > 0), (lift(wk) < 0) == (lift(A) < 0)))),
                 ('code/after-cost-amount-is-allocation-minus-fee', z3.Implies(e1, e2)),
-                ('code/price-is-the-ask-at-dt', e3),
-                ('code/quantity-is-trunc-of-truncated-amount-over-price', e4),
+                ('code/price-is-the-ask-at-dt', e3)] + staged + [
                 ('quantity-is-the-documented-function-of-allocation-fee-and-price',
                  z3.Implies(z3.And(e2, e3, e4, EQ(q, qty)), EQ(q, specq(k)))),
                 ('code/target-stores-that-quantity', EQ(q, qty))]
